@@ -110,9 +110,9 @@ Proof.
   - (* CSettings *)
     destruct mx as [v|]; [|destruct ini]; unfold CInv; simp_c; repeat split; auto; try discriminate.
   - (* TransitionAfter *)
-    destruct (t_closed o); [|cbn [cstep_ok]; unfold CInv; repeat split; auto].
     assert (X : forall st1, CInv st1 ->
-              cstep_ok (if negb (t_sched_reset o) && cmem key (counted st1)
+              cstep_ok (if t_closed o then
+                        if negb (t_sched_reset o) && cmem key (counted st1)
                         then if negb (match clook key (counted st1) with Some b => Bool.eqb b (t_local o) | None => false end)
                              then CStuck 8
                              else if t_local o
@@ -120,8 +120,9 @@ Proof.
                                        else COk (upd_send st1 (max_send st1) (num_send st1 - 1) (cdel key (counted st1))) []
                                   else if num_recv st1 <=? 0 then CPanic 9
                                        else COk (upd_recv st1 (num_recv st1 - 1) (cdel key (counted st1))) []
-                        else COk st1 [])).
-    { intros st1 (J1 & J2 & J3 & Q1 & Q2 & Q3 & Q4 & Q5 & M1 & M2 & M3 & K1 & K2).
+                        else COk st1 [] else COk st1 [])).
+    { intros st1 HI. destruct (t_closed o); [|exact HI].
+      destruct HI as (J1 & J2 & J3 & Q1 & Q2 & Q3 & Q4 & Q5 & M1 & M2 & M3 & K1 & K2).
       destruct (negb (t_sched_reset o) && cmem key (counted st1)) eqn:E;
         [|cbn [cstep_ok]; unfold CInv; repeat split; auto].
       apply andb_true_iff in E. destruct E as (_ & Em).
@@ -143,6 +144,45 @@ Proof.
     + destruct (num_lreset st <=? 0) eqn:E; [exact I|].
       apply X. cbn [cstep_ok]; unfold CInv; simp_c. repeat split; auto; try lia; try discriminate.
     + apply X. unfold CInv. repeat split; auto.
+Qed.
+
+(* The slot of a locally reset stream is given back exactly when the record has left the reset-expiration
+   queue - whether or not its RST_STREAM frame has been flushed yet (t_closed).  Before fix b... of /repo the
+   decrement sat inside the `is_closed()` branch and was lost for a record that expired while its RST_STREAM
+   was still queued (reset_slot_fix_needed). *)
+Lemma reset_slot_returned st key o st' outs :
+  cstep st (TransitionAfter key o) = COk st' outs ->
+  num_lreset st' = if negb (t_pending_reset o) && t_reset_counted o then num_lreset st - 1 else num_lreset st.
+Proof.
+  cbn [cstep]. destruct (negb (t_pending_reset o) && t_reset_counted o).
+  - destruct (num_lreset st <=? 0); [discriminate|].
+    destruct (t_closed o).
+    + destruct (negb (t_sched_reset o) && cmem key (counted (upd_lreset st (num_lreset st - 1)))).
+      * destruct (negb _); [discriminate|]. destruct (t_local o).
+        -- destruct (_ <=? 0); [discriminate|]. intros H; injection H as <- _. simp_c. reflexivity.
+        -- destruct (_ <=? 0); [discriminate|]. intros H; injection H as <- _. simp_c. reflexivity.
+      * intros H; injection H as <- _. simp_c. reflexivity.
+    + intros H; injection H as <- _. simp_c. reflexivity.
+  - destruct (t_closed o).
+    + destruct (negb (t_sched_reset o) && cmem key (counted st)).
+      * destruct (negb _); [discriminate|]. destruct (t_local o).
+        -- destruct (_ <=? 0); [discriminate|]. intros H; injection H as <- _. simp_c. reflexivity.
+        -- destruct (_ <=? 0); [discriminate|]. intros H; injection H as <- _. simp_c. reflexivity.
+      * intros H; injection H as <- _. reflexivity.
+    + intros H; injection H as <- _. reflexivity.
+Qed.
+
+(* the step as it was before the fix: nothing happens unless the record is closed *)
+Definition cstep_prefix (st : cstate) (key : N) (o : tobs) : coutcome :=
+  if t_closed o then cstep st (TransitionAfter key o) else COk st [].
+
+Lemma reset_slot_fix_needed :
+  exists st key o, cstep_prefix st key o = COk st [] /\ t_pending_reset o = false /\ t_reset_counted o = true /\
+                   num_lreset st = 1 /\
+                   match cstep st (TransitionAfter key o) with COk st' _ => num_lreset st' = 0 | _ => False end.
+Proof.
+  exists (mkC None 0 None 0 10 1 10 0 None 0 false false false false false []), 1%N, (mkT false false true false false).
+  vm_compute. repeat split.
 Qed.
 
 Lemma cinit_inv ms mr mlr mrr mle : limit_ok mr -> CInv (cinit ms mr mlr mrr mle).
